@@ -54,3 +54,57 @@ Definition env_conforms_role (role : decl -> bool) (gen spec : env) : bool :=
   && forallb (fun p => if role (snd p)
                        then match lookup spec (fst p) with Some _ => true | None => false end
                        else true) gen.
+
+(* ---- conformance restricted to what a set of root types can reach *)
+Fixpoint ty_names (t : ty) : list string :=
+  match t with
+  | TNamed s => [s]
+  | TVec u _ | TOpt u | TRef u => ty_names u
+  | _ => []
+  end.
+
+Definition decl_refs (d : decl) : list string :=
+  match d with
+  | DStruct _ _ _ fs => flat_map (fun fd => ty_names (f_ty fd)) fs
+  | DUntagged _ vs => flat_map (fun p => ty_names (snd p)) vs
+  | DCustom k _ _ _ =>
+      if String.eqb k "webauthn::FilteredPublicKeyCredentialParameters" then ["webauthn::PublicKeyCredentialParameters"]
+      else if String.eqb k "ctap2::AttestationFormatsPreference" then ["ctap2::AttestationStatementFormat"]
+      else []
+  | _ => []
+  end.
+
+Fixpoint reach (e : env) (fuel : nat) (todo seen : list string) : list string :=
+  match fuel with
+  | O => seen
+  | S k =>
+      match todo with
+      | [] => seen
+      | n :: r =>
+          if smem n seen then reach e k r seen
+          else match lookup e n with
+               | Some d => reach e k (decl_refs d ++ r)%list (n :: seen)
+               | None => reach e k r (n :: seen)
+               end
+      end
+  end.
+
+Definition request_roots : list string :=
+  ["ctap2::make_credential::Request"; "ctap2::get_assertion::Request"; "ctap2::client_pin::Request";
+   "ctap2::credential_management::Request"; "ctap2::large_blobs::Request"].
+Definition response_roots : list string :=
+  ["ctap2::get_info::Response"; "ctap2::make_credential::Response"; "ctap2::get_assertion::Response";
+   "ctap2::client_pin::Response"; "ctap2::credential_management::Response"; "ctap2::large_blobs::Response";
+   "ctap2::make_credential::Extensions"; "ctap2::get_assertion::ExtensionsOutput"].
+
+Definition closure (e : env) (roots : list string) : list string := reach e 400 roots [].
+
+Definition env_conforms_on (names : list string) (gen spec : env) : bool :=
+  forallb (fun n => match lookup gen n, lookup spec n with
+                    | Some a, Some b => decl_eqb a b
+                    | _, _ => false end) names.
+
+(* everything a request (resp. response) can reach, per the SPECIFICATION tables, is declared
+   identically in the regenerated environment *)
+Definition request_side_conforms (gen spec : env) : bool := env_conforms_on (closure spec request_roots) gen spec.
+Definition response_side_conforms (gen spec : env) : bool := env_conforms_on (closure spec response_roots) gen spec.
